@@ -1,9 +1,9 @@
 /-
-  C09 — KnownArgumentNames = §5.4.1 Argument Names.  `Machine.run_events_on`: the fold of a stateful
-  rule over the walk when it is state-independent only on selections satisfying a predicate.  The
-  rule keeps `current_args` across a field it does not know, so the equivalence is stated where every
-  field carrying arguments is a field of its parent type (`ArgsOnKnownFields`) and `__typename`
-  carries none.
+  C09 — KnownArgumentNames (repaired: `current_args` is reset at a field the parent type does not
+  have, `__typename` on a composite type has the empty argument list; the pinned behaviour is the
+  toggle `knownArgsStale`) = §5.4.1 Argument Names.  `Machine.run_events_on`: the fold of a stateful
+  rule over the walk when it is state-independent only on selections satisfying a predicate (here:
+  all of them).
 -/
 import AGV.Lemmas.ValidateGraphUsages
 set_option linter.unusedSectionVars false
@@ -102,15 +102,19 @@ open AGV.Spec.Validate (tyDef fieldType)
 
 abbrev KAState := Option (List ArgDef × Bool)
 
-/-- `KnownArgumentNames` as a machine: `current_args` survives an unknown field -/
+/-- the argument definitions the repaired rule holds after entering field `n` below `par` -/
+def kaDefs (S : VSchema) (par : Option String) (n : String) : Option (List ArgDef) :=
+  match par.bind (fun p => S.field? p n) with
+  | some f => some f.args
+  | none => if n = "__typename" && (match par with | some p => S.isComposite p | none => false) then some [] else none
+
+/-- `KnownArgumentNames` (repaired) as a machine -/
 def kaM (S : VSchema) : Machine KAState where
   step cur e := match e.ev with
     | .enterDir dr => ((S.dir? dr.name).map (fun dd => (dd.args, true)), [])
     | .exitDir _ => (none, [])
     | .enterField _ n _ _ _ =>
-      (match e.par.bind (fun p => S.field? p n) with
-       | some f => (some (f.args, false), [])
-       | none => (cur, []))
+      ((kaDefs S e.par n).map (fun a => (a, false)), [])
     | .exitField => (none, [])
     | .enterArg n _ =>
       (cur, match cur with
@@ -118,14 +122,15 @@ def kaM (S : VSchema) : Machine KAState where
         | none => [])
     | _ => (cur, [])
 
-theorem ruleKnownArgs_eq (S : VSchema) (cur evs) : ruleKnownArgs S cur evs = (kaM S).run cur evs := by
+theorem ruleKnownArgs_eq (S : VSchema) (cur evs) : ruleKnownArgs S {} cur evs = (kaM S).run cur evs := by
   induction evs generalizing cur with
   | nil => simp [ruleKnownArgs, Machine.run]
   | cons e es ih =>
     rcases e with ⟨ev, c, p⟩
     cases ev with
     | enterField al n args ds ss =>
-      cases h : p.bind (fun q => S.field? q n) <;> simp [ruleKnownArgs, Machine.run_cons, kaM, ih, h]
+      cases h : p.bind (fun q => S.field? q n) <;> simp [ruleKnownArgs, Machine.run_cons, kaM, kaDefs, ih, h]
+      split <;> simp
     | enterArg n v => rcases cur with _ | ⟨defs, isDir⟩ <;> simp [ruleKnownArgs, Machine.run_cons, kaM, ih]
     | _ => simp [ruleKnownArgs, Machine.run_cons, kaM, ih]
 
@@ -169,7 +174,6 @@ def notKAEv (e : Evt) : Bool := match e.ev with | .enterArg .. => false | _ => t
 theorem kaM_silent (S : VSchema) (s e) (h : notKAEv e = true) : ((kaM S).step s e).2 = [] := by
   rcases e with ⟨ev, c, p⟩
   cases ev <;> simp_all [kaM, notKAEv]
-  split <;> rfl
 
 theorem notKAEv_enterSet (st ss) : (enterSetEv st ss).all notKAEv = true := by
   cases ss <;> simp [enterSetEv, notKAEv, mk]
@@ -178,18 +182,13 @@ theorem notKAEv_exitSet (st ss) : (exitSetEv st ss).all notKAEv = true := by
 theorem notKAEv_post (S : VSchema) (st sel) : (postEvents S st sel).all notKAEv = true := by
   cases sel <;> simp [postEvents, notKAEv_exitSet] <;> simp [notKAEv, mk]
 
-/-- the field is a field of the walker's current type, or it carries no arguments -/
-def ArgsKnown (S : VSchema) (st : Stack) : Sel → Prop
-  | .field _ n args _ _ _ => (fieldDefs S st n).isSome = true ∨ args = []
-  | _ => True
-
-/-- what `KnownArgumentNames` reports at one selection (when `ArgsKnown`) -/
+/-- what `KnownArgumentNames` reports at one selection -/
 def nodeKA (S : VSchema) (st : Stack) : Sel → List Model.Validate.Kind
-  | .field _ n args ds _ _ => judgeArgs ((fieldDefs S st n).map (fun a => (a, false))) args ++ dirsKA S ds
+  | .field _ n args ds _ _ => judgeArgs ((kaDefs S (Stack.cur st) n).map (fun a => (a, false))) args ++ dirsKA S ds
   | .spread _ ds _ => dirsKA S ds
   | .inline _ ds _ _ => dirsKA S ds
 
-theorem kaM_pre (S : VSchema) (s st sel) (hG : ArgsKnown S st sel) : (kaM S).run s (preEvents S st sel) = nodeKA S st sel := by
+theorem kaM_pre (S : VSchema) (s st sel) : (kaM S).run s (preEvents S st sel) = nodeKA S st sel := by
   cases sel with
   | field al n args ds ss p =>
     simp only [preEvents, Machine.run_cons, Machine.run_append, kaM_dirs, nodeKA]
@@ -198,17 +197,10 @@ theorem kaM_pre (S : VSchema) (s st sel) (hG : ArgsKnown S st sel) : (kaM S).run
     rw [Machine.silent (kaM S) notKAEv (kaM_silent S) _ (notKAEv_enterSet _ _)]
     simp only [List.append_nil]
     have hstep : (kaM S).step s (mk (fieldTy S st n :: st) (.enterField al n args ds ss)) =
-        ((match (Stack.cur st).bind (fun p => S.field? p n) with | some f => some (f.args, false) | none => s), []) := by
+        ((kaDefs S (Stack.cur st) n).map (fun a => (a, false)), []) := by
       simp only [kaM, mk, par_cons]
-      cases (Stack.cur st).bind (fun p => S.field? p n) <;> rfl
     rw [hstep]
     simp only [List.nil_append, (kaM_args S _ _ _ args).1]
-    rcases hG with hG | hG
-    · simp only [fieldDefs] at hG ⊢
-      cases h : (Stack.cur st).bind (fun p => S.field? p n) with
-      | none => simp [h] at hG
-      | some f => simp
-    · subst hG; simp [judgeArgs]
   | spread n ds p =>
     simp only [preEvents, Machine.run_cons, Machine.run_append, kaM_dirs, nodeKA, Machine.run_nil]
     simp [kaM, mk]
@@ -222,13 +214,13 @@ def opKA (S : VSchema) (o : OpDef) : List Model.Validate.Kind :=
   | some _ => dirsKA S o.dirs
   | none => []
 
-theorem ruleKnownArgs_events (S : VSchema) (d : Doc) (hG : ∀ v ∈ docVisits S d, ArgsKnown S v.1 v.2) :
-    ruleKnownArgs S none (events S {} d) =
+theorem ruleKnownArgs_events (S : VSchema) (d : Doc) :
+    ruleKnownArgs S {} none (events S {} d) =
       d.frags.flatMap (fun f => dirsKA S f.dirs ++ (visitsSels S (fragSt S f) f.sels).flatMap (fun v => nodeKA S v.1 v.2))
       ++ d.ops.flatMap (fun o => opKA S o ++ (opVisits S o).flatMap (fun v => nodeKA S v.1 v.2)) := by
   rw [ruleKnownArgs_eq,
-    Machine.run_events_on (kaM S) S d (ArgsKnown S) (nodeKA S) (fun f => dirsKA S f.dirs) (opKA S)
-      (fun s st sel h => kaM_pre S s st sel h)
+    Machine.run_events_on (kaM S) S d (fun _ _ => True) (nodeKA S) (fun f => dirsKA S f.dirs) (opKA S)
+      (fun s st sel _ => kaM_pre S s st sel)
       (fun s st sel => Machine.silent (kaM S) notKAEv (kaM_silent S) _ (notKAEv_post S st sel) s)]
   · intro s f _
     simp only [fragPre, Machine.run_cons, Machine.run_append, kaM_dirs,
@@ -248,7 +240,7 @@ theorem ruleKnownArgs_events (S : VSchema) (d : Doc) (hG : ∀ v ∈ docVisits S
   · intro s o
     exact Machine.silent (kaM S) notKAEv (kaM_silent S) _ (by unfold opPost; cases rootOf S o.ty <;> simp [notKAEv_exitSet] <;> simp [notKAEv, mk]) s
   · intro s; simp [kaM, mk]
-  · exact hG
+  · intro _ _; trivial
 
 end AGV.Lemmas.ValidateRules
 
@@ -302,60 +294,57 @@ theorem hasKA_dirsKA (S : VSchema) (ds : List Dir) : hasKA (dirsKA S ds) ↔ (di
     rw [h1, hasKA_append, hasKA_judgeArgs, ih]
     simp [dirSites, VSchema.dir?]
 
-/-- `__typename` carries no arguments -/
-def typenameNoArgs : Sel → Prop
-  | .field _ n args _ _ _ => n = "__typename" → args = []
-  | _ => True
+theorem kaDefs_agree (S : VSchema) (hT : TypedSchema S) (hSC : Spec.Validate.composite S "String" = false)
+    (cur parent : Option String) (n : String) (h : TyRel cur parent) :
+    kaDefs S cur n = (parent.bind (fun p => fieldType S p n)).map (·.2) := by
+  unfold kaDefs
+  by_cases hn' : n = "__typename"
+  · subst hn'
+    have hnf : cur.bind (fun p => S.field? p "__typename") = none := by
+      cases cur <;> simp [hT.noTypenameField]
+    rw [hnf]
+    rcases h with h | ⟨h1, h2⟩
+    · subst h
+      cases cur with
+      | none => simp
+      | some p =>
+        simp only [Option.bind_some, fieldType, isComposite_eq, if_true, Bool.true_and, decide_true]
+        cases Spec.Validate.composite S p <;> simp
+    · subst h1; subst h2
+      simp [isComposite_eq, hSC]
+  · rcases h with h | ⟨h1, h2⟩
+    · subst h
+      cases cur with
+      | none => simp [hn']
+      | some p =>
+        simp only [Option.bind_some, ← field?_eq_fieldType S p n hn']
+        cases S.field? p n <;> simp [hn']
+    · subst h1; subst h2
+      simp [hT.stringNoFields n, hn']
 
-theorem ka_agree (S : VSchema) (hT : TypedSchema S) (st : Stack) (parent : Option String) (s : Sel)
-    (h : TyRel (Stack.cur st) parent) (hn : typenameNoArgs s) :
+theorem ka_agree (S : VSchema) (hT : TypedSchema S) (hSC : Spec.Validate.composite S "String" = false)
+    (st : Stack) (parent : Option String) (s : Sel) (h : TyRel (Stack.cur st) parent) :
     hasKA (nodeKA S st s) ↔ (selSites S (parent, s)).any siteUnknown = true := by
   cases s with
   | spread n ds p => simp [nodeKA, selSites, hasKA_dirsKA]
   | inline c ds ss p => simp [nodeKA, selSites, hasKA_dirsKA]
   | field al n args ds ss p =>
     simp only [nodeKA, selSites, List.any_cons, Bool.or_eq_true, hasKA_append, hasKA_dirsKA, hasKA_judgeArgs]
-    apply or_congr_left
-    simp only [fieldDefs]
-    by_cases hn' : n = "__typename"
-    · have ha := hn hn'
-      subst ha
-      simp only [siteUnknown, List.any_nil]
-      cases (Option.map (fun x => x.2) (parent.bind fun p => fieldType S p n)) <;>
-        cases (Option.map (fun x => x.args) ((Stack.cur st).bind fun t => S.field? t n)) <;> simp
-    · rcases h with h | ⟨h1, h2⟩
-      · rw [h]
-        cases parent with
-        | none => simp
-        | some p =>
-          simp only [Option.bind_some, ← field?_eq_fieldType S p n hn']
-          cases S.field? p n <;> simp
-      · rw [h1, h2]
-        simp [hT.stringNoFields n]
+    rw [kaDefs_agree S hT hSC _ _ n h]
 
-/-- every visited field that carries arguments is a field of the walker's current type -/
-def ArgsOnKnownFields (S : VSchema) (d : Doc) : Prop := ∀ v ∈ docVisits S d, ArgsKnown S v.1 v.2
-
-/-- KnownArgumentNames = §5.4.1 Argument Names, where `current_args` cannot go stale
-    (`ArgsOnKnownFields`) and `__typename` carries no arguments -/
-theorem rule_known_argument_names (S : VSchema) (d : Doc) (hT : TypedSchema S) (hs : Served S d) (hr : RootsExist S d)
-    (hG : ArgsOnKnownFields S d) (hTn : ∀ s ∈ allSels d, typenameNoArgs s) :
-    hasKA (ruleKnownArgs S none (events S {} d)) ↔ violates_ArgumentNames S d = true := by
+/-- KnownArgumentNames (repaired) = §5.4.1 Argument Names -/
+theorem rule_known_argument_names (S : VSchema) (d : Doc) (hT : TypedSchema S) (hSC : Spec.Validate.composite S "String" = false)
+    (hs : Served S d) (hr : RootsExist S d) :
+    hasKA (ruleKnownArgs S {} none (events S {} d)) ↔ violates_ArgumentNames S d = true := by
   have hspec : violates_ArgumentNames S d = true ↔
-      (∃ w ∈ specDocVisits S d, typenameNoArgs w.2 ∧ (selSites S w).any siteUnknown = true)
+      (∃ w ∈ specDocVisits S d, (selSites S w).any siteUnknown = true)
         ∨ (∃ o ∈ d.ops, (dirSites S o.dirs).any siteUnknown = true)
         ∨ (∃ f ∈ d.frags, (dirSites S f.dirs).any siteUnknown = true) := by
     simp only [argumentNames_eq, argSites_eq, List.any_append, List.any_flatMap, Bool.or_eq_true, List.any_eq_true, or_assoc]
-    apply or_congr_left
-    constructor
-    · rintro ⟨w, hw, h⟩
-      refine ⟨w, hw, hTn w.2 ?_, h⟩
-      rw [← specDocVisits_snd]; exact List.mem_map_of_mem hw
-    · rintro ⟨w, hw, _, h⟩; exact ⟨w, hw, h⟩
-  rw [hspec, ← typed_exists S d hT hs hr (fun v => typenameNoArgs v.2 ∧ hasKA (nodeKA S v.1 v.2))
-    (fun w => typenameNoArgs w.2 ∧ (selSites S w).any siteUnknown = true)
-    (fun st parent s h => and_congr_right (fun hn => ka_agree S hT st parent s h hn))]
-  rw [ruleKnownArgs_events S d hG]
+  rw [hspec, ← typed_exists S d hT hs hr (fun v => hasKA (nodeKA S v.1 v.2))
+    (fun w => (selSites S w).any siteUnknown = true)
+    (fun st parent s h => ka_agree S hT hSC st parent s h)]
+  rw [ruleKnownArgs_events S d]
   have hmem : ∀ k, k ∈ (d.frags.flatMap (fun f => dirsKA S f.dirs ++ (visitsSels S (fragSt S f) f.sels).flatMap (fun v => nodeKA S v.1 v.2))
       ++ d.ops.flatMap (fun o => opKA S o ++ (opVisits S o).flatMap (fun v => nodeKA S v.1 v.2))) ↔ _ :=
     fun k => mem_folded (S := S) (d := d) (nodeKA S) (fun f => dirsKA S f.dirs) (opKA S) k
@@ -363,22 +352,17 @@ theorem rule_known_argument_names (S : VSchema) (d : Doc) (hT : TypedSchema S) (
     intro o ho
     have := hs o ho
     unfold opKA; cases hroot : rootOf S o.ty <;> simp_all
-  have hvis : ∀ v ∈ docVisits S d, typenameNoArgs v.2 := by
-    intro v hv
-    apply hTn
-    rw [← docSels_served S d hs, ← docVisits_snd]
-    exact List.mem_map_of_mem hv
   unfold hasKA
   rw [hmem, hmem]
   constructor
   · rintro ((⟨f, hf, h⟩ | ⟨o, ho, h⟩ | ⟨v, hv, h⟩) | (⟨f, hf, h⟩ | ⟨o, ho, h⟩ | ⟨v, hv, h⟩))
     · exact Or.inr (Or.inr ⟨f, hf, (hasKA_dirsKA S f.dirs).mp (Or.inl h)⟩)
     · exact Or.inr (Or.inl ⟨o, ho, (hasKA_dirsKA S o.dirs).mp (Or.inl (hop o ho ▸ h))⟩)
-    · exact Or.inl ⟨v, hv, hvis v hv, Or.inl h⟩
+    · exact Or.inl ⟨v, hv, Or.inl h⟩
     · exact Or.inr (Or.inr ⟨f, hf, (hasKA_dirsKA S f.dirs).mp (Or.inr h)⟩)
     · exact Or.inr (Or.inl ⟨o, ho, (hasKA_dirsKA S o.dirs).mp (Or.inr (hop o ho ▸ h))⟩)
-    · exact Or.inl ⟨v, hv, hvis v hv, Or.inr h⟩
-  · rintro (⟨v, hv, _, h | h⟩ | ⟨o, ho, h⟩ | ⟨f, hf, h⟩)
+    · exact Or.inl ⟨v, hv, Or.inr h⟩
+  · rintro (⟨v, hv, h | h⟩ | ⟨o, ho, h⟩ | ⟨f, hf, h⟩)
     · exact Or.inl (Or.inr (Or.inr ⟨v, hv, h⟩))
     · exact Or.inr (Or.inr (Or.inr ⟨v, hv, h⟩))
     · rcases (hasKA_dirsKA S o.dirs).mpr h with h | h
@@ -388,12 +372,4 @@ theorem rule_known_argument_names (S : VSchema) (d : Doc) (hT : TypedSchema S) (
       · exact Or.inl (Or.inl ⟨f, hf, h⟩)
       · exact Or.inr (Or.inl ⟨f, hf, h⟩)
 
-
-instance : DecidablePred typenameNoArgs := fun s => by
-  cases s <;> (unfold typenameNoArgs; infer_instance)
-instance (S : VSchema) (st : Stack) : DecidablePred (ArgsKnown S st) := fun s => by
-  cases s <;> (unfold ArgsKnown; infer_instance)
-instance (S : VSchema) (d : Doc) : Decidable (ArgsOnKnownFields S d) := by unfold ArgsOnKnownFields; infer_instance
-
 end AGV.Lemmas.ValidateRules
-
